@@ -372,6 +372,13 @@ def run_corr_ids(ctx, rng, key):
              (pd.DataFrame(X, columns=["a", "b", "c"]), [0])]
     Xc, ids = cells[i % len(cells)]
     expect_raise(ctx, "sensitive_feature_id_not_in_X:CorrelationRemover", lambda: CorrelationRemover(sensitive_feature_ids=ids).fit(Xc), {"ids": repr(ids), "container": type(Xc).__name__})
+    # the same defect presented to an estimator that was fitted successfully before (equally wide frame lacking the column)
+    pos = int(rng.integers(0, 3))
+    good = pd.DataFrame(X, columns=[("sens" if j == pos else "f%d" % j) for j in range(3)])
+    bad = pd.DataFrame(X, columns=["g%d" % j for j in range(3)])
+    cr = CorrelationRemover(sensitive_feature_ids=["sens"])
+    control_accepts(ctx, "refit_control:CorrelationRemover", lambda: cr.fit(good))
+    expect_raise(ctx, "sensitive_feature_id_not_in_X:CorrelationRemover:refit", lambda: cr.fit(bad), {"ids": "['sens']", "columns": list(bad.columns), "fitted_before": True})
 
 
 def run_not_fitted(ctx, rng, key):
